@@ -44,8 +44,9 @@ UINT_MAX = 4294967295
 ASSUMPTIONS = [
     'cyarray c_align_array(indices, stride) gathers whole stride blocks; '
     'resize(n) sets the length; LongArray.append appends',
-    'push-front lists from empty lists partition the binned indices (glue '
-    'lemma); std::sort permutes the pid arrays of the sort-based algorithms',
+    'push-front lists from empty lists partition the binned indices: '
+    'lemmas/PushFront.lean (Lean 4 + Mathlib, compiled in the thorough tier '
+    'only); std::sort permutes the pid arrays of the sort-based algorithms',
     'ParticleArray.align_particles puts Local particles first (C06)',
 ]
 TRUSTED = ['z3 quantifier instantiation']
@@ -55,7 +56,7 @@ def tasks(tier):
     # Solver.reorder_particles (re-order every array, then update the
     # neighbour structures) is contracted in C05: re-proved here
     return ['refresh', 'bin', 'walk', 'copy', 'apply', 'canary',
-            'dep:C05:reorder', 'dep:C06:align']
+            'dep:C05:reorder', 'dep:C06:align', 'lemma']
 
 
 def carr(name, length=None, elem='int'):
@@ -100,6 +101,12 @@ def run_task(task, ctx):
     if task.startswith('dep:'):
         from contracts import deps
         return deps.run_dep(task, ctx)
+    if task == 'lemma':
+        from contracts import deps
+        return deps.lean_lemma(ctx, 'PushFront.lean', [
+            'repr_step', 'lists_content', 'lists_nodup', 'repr_build',
+            'linked_list_represents_cells'],
+            'lemma.push_front_lists_hold_exactly_the_binned_particles')
     repo = Repo()
     if task == 'refresh':
         return task_refresh(ctx, repo)
